@@ -29,12 +29,15 @@ static const alg_t *A;
 static int g_a, g_dir;
 static long long n_eval, n_cmp, n_dec;
 static const char *g_geom; /* set while a DOCSIS frame geometry other than the canonical one is exercised */
+static uint32_t g_coff, g_short; /* ... its cipher offset and by how many bytes the cipher range ends before the CRC field */
 
 static void
 viol(const char *site, int v, uint32_t len, int ivc, const char *detail, long x)
 {
         char sig[220];
-        snprintf(sig, sizeof sig, "C08|%s|%s|%s|%d", site, A ? A->name : "-", v >= 0 ? VARIANTS[v].name : "-", g_dir);
+        /* the record cap is per class: geometry classes that are known findings must not use up the quota of their neighbours */
+        snprintf(sig, sizeof sig, "C08|%s|%s|%s|%d|%u|%d|%d", site, A ? A->name : "-", v >= 0 ? VARIANTS[v].name : "-", g_dir, g_geom ? g_coff : 0,
+                 g_geom ? g_short != 0 : 0, g_geom ? len <= 4 : 0);
         if (!rec_sig_ok(sig, 2))
                 return;
         rec_begin("viol");
@@ -46,8 +49,11 @@ viol(const char *site, int v, uint32_t len, int ivc, const char *detail, long x)
         rec_i("len", len);
         rec_i("iv_class", ivc);
         rec_i("x", x);
-        if (g_geom)
+        if (g_geom) {
                 rec_s("geometry", g_geom);
+                rec_i("cipher_off", g_coff);
+                rec_i("cipher_ends_before_crc_by", g_short);
+        }
         rec_end();
 }
 static void
@@ -133,11 +139,17 @@ span(uint32_t len)
 static void
 docsis_geometry(void)
 {
+        /* header lengths (cipher offset - hash offset): the canonical 12, 14, 16 with early-ending cipher ranges as well, and longer
+         * headers around the 16-byte folding steps of the CRC kernels with the cipher range running to the end of the CRC field */
+        static const uint32_t COFFS[] = { 12, 14, 16, 17, 20, 24, 28, 31, 32, 33, 40, 47, 48, 49, 63, 64, 65, 80 };
         g_geom = "non-canonical";
         for (g_dir = 1; g_dir >= 0; g_dir--)
                 for (uint32_t hl = 14; hl <= (tier_thorough() ? 300u : 90u); hl++)
-                        for (uint32_t coff = 12; coff <= 16; coff += 2)
-                                for (uint32_t short_by = 0; short_by <= 20; short_by += (coff == 12 && short_by == 0) ? 1 : 3) {
+                        for (unsigned ci = 0; ci < sizeof COFFS / sizeof COFFS[0]; ci++)
+                                for (uint32_t short_by = 0; short_by <= (COFFS[ci] <= 16 ? 20u : 0u); short_by += (COFFS[ci] == 12 && short_by == 0) ? 1 : 3) {
+                                        const uint32_t coff = COFFS[ci];
+                                        g_coff = coff;
+                                        g_short = short_by;
                                         if (coff == 12 && short_by == 0)
                                                 continue; /* canonical: covered by the main sweep */
                                         if (hl < 8 + (coff - 12) + short_by)
